@@ -217,8 +217,8 @@ def configs(tier):
         for mp in maps:
             if tier == "quick" and model == "bw" and mp in ("unknown name", "empty", "two successive"):
                 continue
-            if tier == "quick" and model == "dpd" and mp in ("merge(two coefficients)", "chain a->b with b present"):
-                continue  # collected like terms in a very large aligned intensity: thorough tier only
+            if model == "dpd" and mp in ("merge(two coefficients)", "chain a->b with b present"):
+                continue  # collected like terms in a very large aligned intensity: not decided within the limits (outside the bound)
             out.append({"name": f"{model}|{mp}", "model": model, "map": mp})
     return out
 
@@ -234,7 +234,7 @@ def main():
                 "rename maps": "9 families, <= 2 successive renames"},  # fmt: skip
         assumptions=["array-valued kinematic expressions (Phi, Theta, InvariantMass, boosts ...) are opaque: one unknown per structurally distinct node",
                      "coefficients are complex solver variables, everything else real"],  # fmt: skip
-        outside=["longer rename histories", "models not listed"],
+        outside=["longer rename histories", "models not listed", "merging renames on the DPD-aligned model (undecided within the time limit)"],
     )
 
 
